@@ -891,4 +891,31 @@ run with setters (after `set_bar_width` / the character setters called before it
 characters, a bar width that is a binary64 integer -/
 def barHypB (e : CEvent) : Bool := singleCharsB e.cfg && barWidthOkB e.cfg
 
+/-! ## Cleanliness of the inputs of a MULTI-LINE bar (Lemmas/ProgressMulti.lean, `Props.C16.frames_fit_clean`)
+
+The text given to `set_format` may contain line breaks but neither CR nor ESC (`printableB`); everything that is
+SUBSTITUTED into the format - the three bar characters and the messages - contains none of line break, CR, ESC
+(`valueCleanB`).  With setters in the middle of a run the same is demanded of every setter argument. -/
+
+/-- no line break, no carriage return, no ESC: a text that may be substituted for a placeholder -/
+def valueCleanB (s : Str) : Bool := s.all (fun ch => ch != '\n' && ch != '\r' && ch != ESC)
+
+/-- the configuration before the first call: format without CR / ESC, bar characters without line break / CR / ESC -/
+def mlCleanCfgB (c : Config) : Bool :=
+  (match c.internalFormat with | some f => printableB f | none => true) &&
+  valueCleanB c.emptyChar && valueCleanB c.progressChar &&
+  (match c.barChar with | some b => valueCleanB b | none => true)
+
+/-- the argument of one call: messages and bar characters without line break / CR / ESC, a format without CR / ESC -/
+def mlCleanCallB : Call → Bool
+  | .op (.setMessage text) => valueCleanB text
+  | .op _ => true
+  | .set (.format f) => printableB f
+  | .set (.barChar b) => valueCleanB b
+  | .set (.emptyChar b) => valueCleanB b
+  | .set (.progressChar b) => valueCleanB b
+  | .set _ => true
+
+def mlCleanCallsB (calls : List (Call × Nat)) : Bool := calls.all (fun x => mlCleanCallB x.1)
+
 end Clikit.Progress
